@@ -321,6 +321,159 @@ pub fn run_trial(ctx: &mut Ctx, trial: &Trial, nthreads: usize, seed: u64, calls
     }
 }
 
+// ---- cached creation of different interfaces from many threads ------------------------------------------
+
+/// After first use every interface has a cached template. Threads now create connections for *different*
+/// interfaces in tight loops (each thread walks the interface list from its own offset), call once and drop.
+/// Every connection must behave like its own interface (result of f identifies the interface).
+pub fn mixed_creators(ctx: &mut Ctx, seed: u64) {
+    let ts = Arc::new(trials());
+    let nthreads = if cfg!(miri) { 2 } else { 8 };
+    let slow = cfg!(miri) || std::env::var("VH_SANITIZER").is_ok();
+    let iters = if cfg!(miri) { 6 } else if slow { ctx.t(400, 2000) } else { ctx.t(20000, 100000) };
+    let ntypes = if cfg!(miri) { 2 } else { ts.len() };
+    let problems: Arc<Mutex<Vec<String>>> = Arc::new(Mutex::new(vec![]));
+    let created = Arc::new(AtomicU64::new(0));
+    let barrier = Arc::new(Barrier::new(nthreads));
+    let mut joins = vec![];
+    for t in 0..nthreads {
+        let (ts, problems, created, barrier) = (ts.clone(), problems.clone(), created.clone(), barrier.clone());
+        joins.push(std::thread::spawn(move || {
+            let mut rng = Rng::new(seed ^ (t as u64).wrapping_mul(0x9e37_79b9));
+            barrier.wait();
+            for i in 0..iters {
+                // neighbouring threads ask for different interfaces at (almost) the same time
+                let idx = (i + t * 5 + if rng.chance(1, 8) { rng.below(ntypes) } else { 0 }) % ntypes;
+                let tr = &ts[idx];
+                let x = rng.next_u64() as u32;
+                let r = catch(std::panic::AssertUnwindSafe(|| {
+                    let c = (tr.create)()?;
+                    let a = c.f(x);
+                    let b = if i % 16 == 0 { Some(c.with_cb(x)) } else { None };
+                    Ok::<_, String>((a, b))
+                }));
+                created.fetch_add(1, Ordering::Relaxed);
+                let bad = match r {
+                    Ok(Ok((a, b))) => {
+                        if a != expected_f(tr.k, x) {
+                            Some(format!("f({}) = {} instead of {}", x, a, expected_f(tr.k, x)))
+                        } else if b.is_some() && b != Some(expected_cb(tr.k, x)) {
+                            Some(format!("with_cb({}) = {:?} instead of {}", x, b, expected_cb(tr.k, x)))
+                        } else {
+                            None
+                        }
+                    }
+                    Ok(Err(e)) => Some(format!("creation failed: {}", e)),
+                    Err(p) => Some(format!("panicked: {}", p)),
+                };
+                if let Some(b) = bad {
+                    let mut g = problems.lock().unwrap_or_else(|p| p.into_inner());
+                    if g.len() < 20 {
+                        g.push(format!("thread {} iteration {} interface {}: {}", t, i, tr.name, b));
+                    }
+                }
+            }
+        }));
+    }
+    let mut join_panics = 0;
+    for j in joins {
+        if j.join().is_err() {
+            join_panics += 1;
+        }
+    }
+    ctx.eval();
+    ctx.count_n("mixed_cached_creations", created.load(Ordering::Relaxed));
+    ctx.distinct(&format!("mixed|{}|{}", nthreads, ntypes));
+    let problems = problems.lock().unwrap_or_else(|p| p.into_inner()).clone();
+    if join_panics > 0 || !problems.is_empty() {
+        ctx.violation(
+            "C16:concurrent-result-differs-from-sequential",
+            "mixed-cached-creation",
+            J::obj(vec![("seed", J::i(seed)), ("threads", J::i(nthreads)), ("interfaces", J::i(ntypes)), ("thread_panics", J::i(join_panics)), ("problems", J::Arr(problems.iter().take(10).map(|x| J::s(x.clone())).collect()))]),
+        );
+    } else {
+        ctx.count("mixed_creation_rounds_as_sequential");
+    }
+}
+
+// ---- Send-only interfaces must not become shareable -------------------------------------------------
+
+/// An interface whose implementations are Send but not Sync (state in a Cell).
+#[savefile_abi_exportable(version = 0)]
+pub trait SendOnly: Send {
+    fn bump(&self, by: u64) -> u64;
+}
+pub struct SendOnlyImpl(pub std::cell::Cell<u64>);
+impl SendOnly for SendOnlyImpl {
+    fn bump(&self, by: u64) -> u64 {
+        let v = self.0.get();
+        let n = std::hint::black_box(v).wrapping_add(by);
+        self.0.set(n);
+        n
+    }
+}
+struct SyncProbe<T: ?Sized>(std::marker::PhantomData<T>);
+trait SyncProbeFallback {
+    fn declared_sync(&self) -> bool {
+        false
+    }
+}
+impl<T: ?Sized> SyncProbeFallback for SyncProbe<T> {}
+impl<T: ?Sized + Sync> SyncProbe<T> {
+    // inherent methods win over trait methods: chosen exactly when the type is declared Sync
+    fn declared_sync(&self) -> bool {
+        true
+    }
+}
+struct ForceShare<T>(T);
+unsafe impl<T> Sync for ForceShare<T> {}
+
+/// Safe code can share an `AbiConnection<dyn T>` between threads exactly when the library declares it
+/// `Sync`. If it does so for an interface that is only `Send`, concurrent calls reach the same
+/// non-thread-safe implementation: run that workload and compare with the sequential result
+/// (under TSan / Miri the race itself is reported).
+pub fn send_only_interface(ctx: &mut Ctx) {
+    ctx.eval();
+    let declared = SyncProbe::<AbiConnection<dyn SendOnly>>(std::marker::PhantomData).declared_sync();
+    ctx.distinct(&format!("send-only-declared-sync={}", declared));
+    if !declared {
+        ctx.count("send_only_connection_not_shareable");
+        return;
+    }
+    let boxed: Box<dyn SendOnly> = Box::new(SendOnlyImpl(std::cell::Cell::new(0)));
+    let conn = match catch(|| AbiConnection::from_boxed_trait(boxed)) {
+        Ok(Ok(c)) => ForceShare(c),
+        other => {
+            ctx.inconclusive(format!("SendOnly connection could not be created: {:?}", other.map(|x| x.map(|_| "conn"))));
+            return;
+        }
+    };
+    let threads = if cfg!(miri) { 2u64 } else { 4 };
+    let per = if cfg!(miri) { 50u64 } else { 200_000 };
+    std::thread::scope(|sc| {
+        for _ in 0..threads {
+            sc.spawn(|| {
+                let c = &conn;
+                for _ in 0..per {
+                    c.0.bump(1);
+                }
+            });
+        }
+    });
+    let total = conn.0.bump(0);
+    if total != threads * per {
+        ctx.violation(
+            "C16:send-only-interface-shared-between-threads",
+            "SendOnly",
+            J::obj(vec![
+                ("observed", J::s(format!("AbiConnection<dyn SendOnly> is declared Sync although the interface is only Send; {} threads x {} calls of bump(1) on the shared connection gave {} instead of the sequential {}", threads, per, total, threads * per))),
+            ]),
+        );
+    } else {
+        ctx.inconclusive("AbiConnection<dyn SendOnly> is declared Sync although the interface is only Send, but no diverging result was observed in this run".to_string());
+    }
+}
+
 pub fn run_group(ctx: &mut Ctx, group: usize) {
     savefile_abi::verif_hooks::set_hook(Some(hook));
     let ts = trials();
@@ -336,6 +489,11 @@ pub fn run_group(ctx: &mut Ctx, group: usize) {
         }
     }
     savefile_abi::verif_hooks::set_hook(None);
+    // all interfaces of this process are cached now
+    mixed_creators(ctx, ctx.seed.wrapping_mul(31).wrapping_add(group as u64));
+    if group == 0 {
+        send_only_interface(ctx);
+    }
 }
 
 pub fn run(ctx: &mut Ctx) {
